@@ -85,6 +85,20 @@ func (r *Report) Fail(f Failure) {
 	}
 }
 
+// Unlisted counts the recorded failures that carry no known-finding class: once there are many,
+// a slow harness (each failing case waits for frames that never come) may stop generating.
+func (r *Report) Unlisted() int {
+	r.mu.Lock()
+	defer r.mu.Unlock()
+	n := 0
+	for _, f := range r.Failures {
+		if f.Class == "" {
+			n++
+		}
+	}
+	return n
+}
+
 func (r *Report) Note(s string) {
 	r.mu.Lock()
 	r.Notes = append(r.Notes, s)
